@@ -99,3 +99,55 @@ pub fn set_capture_path(p: &str) {
 fn capture_path() -> String {
     CAPTURE_PATH.lock().unwrap().clone()
 }
+
+
+// ---------------------------------------------------------------- allocation accounting
+//
+// A counting wrapper around the system allocator: live bytes per thread. The tick callback uses it to
+// stop a job whose memory grows without bound (e.g. a macro expansion that doubles on every pass) long
+// before the process-wide RLIMIT_AS would abort the worker, so that such runs are classified
+// deterministically at the tick site that was looping.
+
+use std::alloc::{GlobalAlloc, Layout, System};
+
+thread_local! {
+    static LIVE: Cell<isize> = const { Cell::new(0) };
+    static PEAK: Cell<isize> = const { Cell::new(0) };
+}
+
+pub struct CountingAlloc;
+
+unsafe impl GlobalAlloc for CountingAlloc {
+    unsafe fn alloc(&self, l: Layout) -> *mut u8 {
+        let p = System.alloc(l);
+        if !p.is_null() {
+            let _ = LIVE.try_with(|c| c.set(c.get() + l.size() as isize));
+        }
+        p
+    }
+    unsafe fn dealloc(&self, p: *mut u8, l: Layout) {
+        System.dealloc(p, l);
+        let _ = LIVE.try_with(|c| c.set(c.get() - l.size() as isize));
+    }
+    unsafe fn alloc_zeroed(&self, l: Layout) -> *mut u8 {
+        let p = System.alloc_zeroed(l);
+        if !p.is_null() {
+            let _ = LIVE.try_with(|c| c.set(c.get() + l.size() as isize));
+        }
+        p
+    }
+    unsafe fn realloc(&self, p: *mut u8, l: Layout, new_size: usize) -> *mut u8 {
+        let q = System.realloc(p, l, new_size);
+        if !q.is_null() {
+            let _ = LIVE.try_with(|c| c.set(c.get() + new_size as isize - l.size() as isize));
+        }
+        q
+    }
+}
+
+/// bytes currently allocated by the calling thread (approximate across threads, exact for a confined job)
+pub fn live_bytes() -> isize {
+    let v = LIVE.with(|c| c.get());
+    PEAK.with(|p| if v > p.get() { p.set(v) });
+    v
+}
